@@ -52,7 +52,7 @@ HASHSEEDS = ["0", "1", "2", "12345"]
 
 
 def budget(tier):
-    return int(os.environ.get("VERIF_BUDGET", 0)) or {"quick": 160, "thorough": 2400}[tier]
+    return int(os.environ.get("VERIF_BUDGET", 0)) or {"quick": 100, "thorough": 2400}[tier]
 
 
 # ---------------------------------------------------------------- generation (pure, no pharmpy import)
@@ -325,6 +325,8 @@ def gen_cases(rng, n, tier):
             specs = [gen_model_spec(rng), gen_pheno_spec(rng)]
             if i % 2 == 0:
                 specs.append(gen_model_spec(rng))
+            for sp in specs:
+                sp["derive"] = rng.sample(DERIVE_OPS, 3)
             out.append({"kind": "procs", "specs": specs, "seed": seed})
         elif i < n_procs + n_pheno:
             out.append({"kind": "model", "spec": gen_pheno_spec(rng), "seed": seed})
@@ -341,7 +343,7 @@ def gen_cases(rng, n, tier):
 def corpus_cases():
     return [
         {"kind": "model", "spec": f4_witness_spec(), "seed": 1},                       # F4: node insertion order
-        {"kind": "procs", "specs": [hashseed_witness_spec(), f4_witness_spec()], "seed": 2},   # set-order relabelling
+        {"kind": "procs", "specs": [hashseed_witness_spec(), dict(f4_witness_spec(), derive=["assign", "where", "copy"])], "seed": 2},   # set-order relabelling; dataset history
         {"kind": "model", "spec": deriv_witness_spec(), "seed": 3},                    # derivatives are stringified
         {"kind": "model", "spec": {"kind": "pheno", "transforms": []}, "seed": 4},
         {"kind": "model", "spec": {"kind": "pheno", "transforms": ["foabs", "periph", "transit2", "joint"]}, "seed": 5},
@@ -781,6 +783,60 @@ def model_hash_with_chunks(m):
     return h, chunks
 
 
+def safe_hash(m, mon, what):
+    """str(ModelHash(m)); an exception of the real code is a monitor failure, never a harness error."""
+    try:
+        return str(ModelHash(m))
+    except Exception as e:
+        mon.append({"cls": "hash-raises", "what": f"ModelHash({what}) raised {type(e).__name__}: {str(e)[:200]}"})
+        return None
+
+
+DERIVE_OPS = ["assign", "arith", "replace", "where", "mask-reset", "mask-drop", "astype-roundtrip", "astype-same", "copy"]
+
+
+def derive_frame(df, op, col):
+    """A frame derived from the SAME DataFrame object; pandas propagates df.attrs to all of them.
+    Most are value-only changes (same columns, row count, dtypes); 'copy'/'astype-same' change nothing."""
+    v = df[col].iloc[0]
+    if op == "assign":
+        return df.assign(**{col: df[col] * 1000})
+    if op == "arith":
+        return df * 2
+    if op == "replace":
+        return df.replace({col: {v: v + 1}})
+    if op == "where":
+        return df.where(df[col] != v, other=v + 7)
+    if op == "mask-reset":
+        out = df[df[col] == df[col]].reset_index(drop=True)
+        return out.assign(**{col: out[col] + 3})
+    if op == "mask-drop":
+        return df[df.index != df.index[-1]].reset_index(drop=True)
+    if op == "astype-roundtrip":
+        return (df + 0.1).astype("float32").astype("float64")
+    if op == "astype-same":
+        return df.astype(df.dtypes.to_dict())
+    if op == "copy":
+        return df.copy()
+    raise KeyError(op)
+
+
+def fresh_frame(df):
+    """An equal-content frame built from scratch (own arrays, no attrs, no link to the original object)."""
+    out = pd.DataFrame({c: df[c].to_numpy().copy() for c in df.columns}, index=df.index.copy())
+    for c in df.columns:
+        if out[c].dtype != df[c].dtype:
+            out[c] = out[c].astype(df[c].dtype)
+    return out
+
+
+def history_col(df):
+    for c in df.columns:
+        if c not in ("ID",) and str(df[c].dtype).startswith("float"):
+            return c
+    return df.columns[-1]
+
+
 def mutate_dict(rng, d, kind):
     """A seeded structural mutation of a to_dict() value; returns (description, mutated copy) or None."""
     d = copy.deepcopy(norm_tl(d))
@@ -855,9 +911,17 @@ def real_roundtrip(kind, d):
         return ["err", "none", type(e).__name__]
 
 
-def child_payload(m):
+def child_payload(m, spec=None):
     d = m.to_dict()
-    return {"hash": str(ModelHash(m)), "dict": dumps(d)}
+    out = {"hash": str(ModelHash(m)), "dict": dumps(d)}
+    if spec is not None and spec.get("derive") and m.dataset is not None:
+        # with history: m (and so its DataFrame object) has just been hashed; derive from that object and hash again
+        col = history_col(m.dataset)
+        out["hist"] = [str(ModelHash(m.replace(dataset=derive_frame(m.dataset, op, col)))) for op in spec["derive"]]
+        # without history: the same content constructed from scratch, never hashed before
+        out["nohist"] = [str(ModelHash(m.replace(dataset=fresh_frame(derive_frame(fresh_frame(m.dataset), op, col)))))
+                         for op in spec["derive"]]
+    return out
 
 
 def run_children(specs):
@@ -1056,24 +1120,27 @@ def run_case(case, drv):
             mon.append({"cls": "json-reload-raises", "what": f"parse_model(model.code) raised {type(e).__name__}: {e}"})
 
     # ---- Mon (d): the codec law on every expression of the statements
-    n_expr = 0
-    for s in m.statements:
-        es = [s.symbol, s.expression] if isinstance(s, PM.Assignment) else [r for _, _, r in s._g.edges.data("rate")]
-        for e in es:
-            n_expr += 1
-            t = e.serialize()
-            e2 = Expr.deserialize(t)
-            if e2.serialize() != t or (e2 != e and e2._sympy_() != e._sympy_()):
-                mon.append({"cls": "srepr-roundtrip", "what": f"Expr.deserialize(serialize(e)) != e for {t}"})
-                break
-    for dist in m.random_variables._dists:
-        if isinstance(dist, PM.JointNormalDistribution):
-            t = dist._variance.serialize()
-            if Matrix.deserialize(t) != dist._variance or Matrix.deserialize(t).serialize() != t:
-                mon.append({"cls": "srepr-roundtrip", "what": f"Matrix.deserialize(serialize(m)) != m for {t}"})
-    for col in m.datainfo:
-        if PM.datainfo.Unit.deserialize(str(col.unit)) != col.unit:
-            mon.append({"cls": "unit-roundtrip", "what": f"Unit(str(u)) != u for {col.unit}"})
+    try:
+        n_expr = 0
+        for s in m.statements:
+            es = [s.symbol, s.expression] if isinstance(s, PM.Assignment) else [r for _, _, r in s._g.edges.data("rate")]
+            for e in es:
+                n_expr += 1
+                t = e.serialize()
+                e2 = Expr.deserialize(t)
+                if e2.serialize() != t or (e2 != e and e2._sympy_() != e._sympy_()):
+                    mon.append({"cls": "srepr-roundtrip", "what": f"Expr.deserialize(serialize(e)) != e for {t}"})
+                    break
+        for dist in m.random_variables._dists:
+            if isinstance(dist, PM.JointNormalDistribution):
+                t = dist._variance.serialize()
+                if Matrix.deserialize(t) != dist._variance or Matrix.deserialize(t).serialize() != t:
+                    mon.append({"cls": "srepr-roundtrip", "what": f"Matrix.deserialize(serialize(m)) != m for {t}"})
+        for col in m.datainfo:
+            if PM.datainfo.Unit.deserialize(str(col.unit)) != col.unit:
+                mon.append({"cls": "unit-roundtrip", "what": f"Unit(str(u)) != u for {col.unit}"})
+    except Exception as e:
+        mon.append({"cls": "codec-raises", "what": f"serialize/deserialize raised {type(e).__name__}: {str(e)[:200]}"})
 
     # ---- K: from_dict on the real dicts and seeded mutations of them
     if drv is not None:
@@ -1136,41 +1203,98 @@ def run_case(case, drv):
     # ---- hash monitors
     if m.dataset is None:
         return {"k": k, "mon": mon, "tags": tags, "nontrivial": nontrivial}
-    h0, chunks = model_hash_with_chunks(m)
+    try:
+        h0, chunks = model_hash_with_chunks(m)
+    except Exception as e:
+        mon.append({"cls": "hash-raises", "what": f"ModelHash(model) raised {type(e).__name__}: {str(e)[:200]}"})
+        return {"k": k, "mon": mon, "tags": tags, "nontrivial": nontrivial}
+    df = m.dataset
     if cs is not None and not isinstance(list(cs._g.nodes)[0], PM.statements.Output):
         tags.append("output-not-first")
     if drv is not None:
-        df = m.dataset
-        rows = [int.from_bytes(c, "big") for c in chunks[:len(df)]]
+        # the byte stream fed to sha256 (chunk boundaries are not observable); row digests computed here, independently
+        rows = [int(v) for v in pd.util.hash_pandas_object(df, index=False, encoding="utf8", hash_key="0123456789123456",
+                                                           categorize=True)]
         dsw = ["dataset", rows, repr(list(df.columns)), repr(df.index), repr(list(df.dtypes))]
         a = drv.ask(["encode", dsw, w_model(m)])
-        code = [["row", str(r)] for r in rows] + [["text", c.decode("utf-8")] for c in chunks[len(df):]]
-        if len(chunks) != len(df) + 4 or a != code:
-            k.append(f"ModelHash pre-image: model {str(a)[-300:]} code {str(code)[-300:]}")
+        try:
+            stream_model = b"".join(int(c[1]).to_bytes(8, "big") if c[0] == "row" else c[1].encode("utf-8") for c in a)
+        except Exception:
+            stream_model = None
+        stream_code = b"".join(bytes(c) for c in chunks)
+        if stream_model != stream_code:
+            n = next((i for i, (x, y) in enumerate(zip(stream_model or b"", stream_code)) if x != y), None)
+            k.append(f"ModelHash pre-image: byte streams differ (model {len(stream_model or b'')} bytes, code {len(stream_code)} bytes, "
+                     f"first difference at {n}; {len(df)} rows)")
         tags.append("q:encode")
     # metadata must not matter
-    for what, m2 in [("name", m.replace(name="another name")), ("description", m.replace(description="changed text")),
-                     ("path", m.replace(datainfo=m.datainfo.replace(path="/some/where/else.csv")))]:
-        if str(ModelHash(m2)) != h0:
+    try:
+        variants = [("name", m.replace(name="another name")), ("description", m.replace(description="changed text")),
+                    ("path", m.replace(datainfo=m.datainfo.replace(path="/some/where/else.csv")))]
+    except Exception as e:
+        variants = []
+        mon.append({"cls": "replace-raises", "what": f"model.replace(name/description/path) raised {type(e).__name__}: {str(e)[:200]}"})
+    for what, m2 in variants:
+        h = safe_hash(m2, mon, "model with another " + what)
+        if h is not None and h != h0:
             mon.append({"cls": "hash-depends-on-metadata", "what": f"ModelHash changes when only the {what} changes"})
     # int-valued and float-valued parameter fields are == but serialise differently
     if any(isinstance(x, int) and not isinstance(x, bool) for p in m.parameters for x in (p._init, p._lower, p._upper)):
         tags.append("int-parameter-field")
-        pf = PM.Parameters(tuple(PM.Parameter(p._name, float(p._init), float(p._lower), float(p._upper), p._fix) for p in m.parameters))
-        m2 = m.replace(parameters=pf)
-        if m2 == m and str(ModelHash(m2)) != h0:
+        try:
+            pf = PM.Parameters(tuple(PM.Parameter(p._name, float(p._init), float(p._lower), float(p._upper), p._fix) for p in m.parameters))
+            m2 = m.replace(parameters=pf)
+            h = safe_hash(m2, mon, "model with float parameter fields") if m2 == m else None
+        except Exception:
+            h = None
+        if h is not None and h != h0:
             mon.append({"cls": "hash-int-vs-float-parameter",
                         "what": "two == models differing only in int vs float spelling of a parameter bound/init (e.g. lower=-1 from add_covariate_effect vs -1.0) have different ModelHash"})
     # reload must not matter
     try:
         m3 = PM.Model.from_dict(d_model).replace(dataset=m.dataset)
-        if m3 == m and str(ModelHash(m3)) != h0:
-            mon.append({"cls": "hash-changes-after-roundtrip", "what": "ModelHash(from_dict(to_dict(m))) != ModelHash(m) although the models are =="})
+        same3 = bool(m3 == m)
     except Exception:
-        pass
+        same3 = False
+    if same3:
+        h = safe_hash(m3, mon, "from_dict(to_dict(model))")
+        if h is not None and h != h0:
+            mon.append({"cls": "hash-changes-after-roundtrip", "what": "ModelHash(from_dict(to_dict(m))) != ModelHash(m) although the models are =="})
+    # ---- the key must be a function of the dataset's content, not of the DataFrame object's history:
+    #      `df` has just been hashed; derive new frames from this very object (pandas propagates df.attrs and may share
+    #      buffers), hash the derived model in this process, compare with an equal-content model built from scratch
+    col = history_col(df)
+    for op in rng.sample(DERIVE_OPS, 4):
+        try:
+            df2 = derive_frame(df, op, col)
+            dfresh = fresh_frame(df2)
+            m2, mf = m.replace(dataset=df2), m.replace(dataset=dfresh)
+        except Exception as e:
+            tags.append(f"derive-refused:{op}:{type(e).__name__}")
+            continue
+        if not dfresh.equals(df2) or list(dfresh.dtypes) != list(df2.dtypes):
+            tags.append("derive-fresh-copy-inexact:" + op)
+            continue
+        tags.append("derive:" + op)
+        hd = safe_hash(m2, mon, f"model with dataset derived by {op}")
+        hf = safe_hash(mf, mon, "model with a freshly built dataset")
+        if hd is None or hf is None:
+            continue
+        unchanged = df2.shape == df.shape and df2.equals(df) and list(df2.dtypes) == list(df.dtypes) and df2.index.equals(df.index)
+        if hd != hf:
+            mon.append({"cls": "hash-depends-on-dataset-history",
+                        "what": f"after ModelHash(m), the model whose dataset is derived from the same DataFrame by '{op}' on column {col} "
+                                f"hashes to {hd}, an equal-content model with a freshly built DataFrame to {hf}"})
+        if not unchanged and hd == h0:
+            mon.append({"cls": "hash-collision-derived-dataset",
+                        "what": f"dataset derived by '{op}' on column {col} (different data) has the ModelHash of the original"})
+        if unchanged and hf != h0:
+            mon.append({"cls": "hash-differs-for-equal-dataset",
+                        "what": f"an equal-content dataset ('{op}') in a new DataFrame object changes the ModelHash"})
     if spec["kind"] == "gen":
         # single-field perturbations must change the hash
-        for field, s2 in perturbations(rng, spec):
+        perts = perturbations(rng, spec)
+        for field, s2 in rng.sample(perts, min(8, len(perts))):
             try:
                 m2, _ = build_model(s2)
             except Exception:
@@ -1184,7 +1308,7 @@ def run_case(case, drv):
                 tags.append("perturbation-noop:" + field)
                 continue
             tags.append("perturb:" + field)
-            if str(ModelHash(m2)) == h0:
+            if safe_hash(m2, mon, "perturbed model") == h0:
                 mon.append({"cls": "hash-collision-" + field, "what": f"ModelHash unchanged although {field} differs"})
         # another construction order of the same content
         if ncomp >= 2:
@@ -1202,7 +1326,8 @@ def run_case(case, drv):
                     eq = False
                 if eq:
                     tags.append("order-variant-equal")
-                    if str(ModelHash(m2)) != h0:
+                    h2 = safe_hash(m2, mon, "order variant")
+                    if h2 is not None and h2 != h0:
                         if canon_model_dict(m2.to_dict()) == canon_model_dict(d_model):
                             mon.append({"cls": "hash-noncanonical-node-order",
                                         "what": "two == models whose compartments/flows were added in different order have different ModelHash (to_dict emits networkx insertion order)"})
@@ -1233,7 +1358,22 @@ def run_procs_case(case):
                                    + str({k: o.get("error", "ok") for k, o in obs.items()})})
             tags.append("spec-refused")
             continue
+        if any("raised" in o for o in obs.values()):
+            worker_mon.append({"cls": "hash-raises", "what": f"to_dict/ModelHash raised in a fresh interpreter for spec #{i}: "
+                               + str({k: o.get("raised", "ok") for k, o in obs.items()})[:400]})
+            continue
         tags.append("procs:" + s["kind"])
+        for j, op in enumerate(s.get("derive", [])):
+            tags.append("procs-derive:" + op)
+            hist = {k: o["hist"][j] for k, o in obs.items()}
+            nohist = {k: o["nohist"][j] for k, o in obs.items()}
+            if any(hist[k] != nohist[k] for k in obs):
+                worker_mon.append({"cls": "hash-depends-on-dataset-history",
+                                   "what": f"fresh interpreter: hashing a model, deriving its dataset by '{op}' from the same DataFrame and "
+                                           f"hashing again gives {sorted(set(hist.values()))}, the same content never hashed before gives {sorted(set(nohist.values()))}"})
+            if op not in ("copy", "astype-same") and any(hist[k] == obs[k]["hash"] for k in obs):
+                worker_mon.append({"cls": "hash-collision-derived-dataset",
+                                   "what": f"fresh interpreter: dataset derived by '{op}' (different data) has the ModelHash of the original"})
         hashes = {k: o["hash"] for k, o in obs.items()}
         if len(set(hashes.values())) > 1:
             canon = {k: json.dumps(canon_model_dict(json.loads(o["dict"]))) for k, o in obs.items()}
@@ -1254,9 +1394,13 @@ def _child_main():
     for s in specs:
         try:
             m, _ = build_model(s)
-            out.append(child_payload(m))
         except Exception as e:
             out.append({"error": type(e).__name__})
+            continue
+        try:
+            out.append(child_payload(m, s))
+        except Exception as e:      # the real code raised on a model it built itself
+            out.append({"raised": f"{type(e).__name__}: {str(e)[:200]}"})
     print(json.dumps(out))
 
 
